@@ -217,6 +217,38 @@ def run(prop, seed, tier):
                     fail('isar-size', xml, 'array extent from I_E: struct size %r, expected 12' % (mod.IS._SIZE,))
             except Exception as ex:
                 fail('isar-module', xml, 'the generated Python module does not import: %r' % ex)
+        # evaluated extents cross an include: a struct of the included file, embedded by the includer (two levels), keeps the
+        # size its array expression says -- in the model (what the C++ generators compute layouts from) and at run time
+        xd = sc.write('xdefs.prophy', 'const N = 1 + 2;\nstruct Row { u16 cell[N * 2]; };\n')
+        xm = sc.write('xmid.prophy', '#include "xdefs.prophy"\nstruct Pair { Row a; Row b; };\n')
+        top = sc.write('xtop.prophy', '#include "xdefs.prophy"\n#include "xmid.prophy"\nstruct Top { u8 head; Row r; Pair p[N]; u8 tail; };\n')
+        out = sc.path('o_inc')
+        os.makedirs(out)
+        nodes, err, _ = lib.run_prophyc([xd, xm, top, '--python_out', out, '-I', os.path.dirname(top)])
+        cases += 1
+        inc_text = 'xdefs: const N = 1 + 2; struct Row { u16 cell[N * 2]; };  xmid: struct Pair { Row a; Row b; };  xtop (includes both): struct Top { u8 head; Row r; Pair p[N]; u8 tail; };'
+        if err:
+            fail('include-rejected', inc_text, 'rejected: %s' % err[:200])
+        else:
+            def find(ns, name):
+                for x in ns:
+                    if getattr(x, 'name', None) == name and hasattr(x, 'byte_size'):
+                        return x
+                    if type(x).__name__ == 'Include':
+                        r = find(x.members, name)
+                        if r is not None:
+                            return r
+                return None
+            for name, want in (('Row', 12), ('Pair', 24), ('Top', 2 + 12 + 72 + 2)):
+                node = find(nodes.get('xtop', []), name)
+                if node is None or node.byte_size != want:
+                    fail('include-model-size', inc_text, 'model byte_size of %s is %r, expected %d' % (name, getattr(node, 'byte_size', None), want))
+            try:
+                mod = lib.import_generated(out, 'xtop')
+                if mod.Top._SIZE != 88:
+                    fail('include-runtime-size', inc_text, 'Top._SIZE %r, expected 88' % (mod.Top._SIZE,))
+            except Exception as ex:
+                fail('include-module', inc_text, 'the generated Python module does not import: %r' % ex)
         # the model-time evaluator must be a function of (expression, constants): same text, different constants
         for a, b in ((2, 3), (5, 7)):
             v = calc.eval('ROWS*COLS', {'ROWS': a, 'COLS': b})
